@@ -105,6 +105,25 @@ CLAIMS = {
    note="Not decided: correctness of scipy.ndimage.label / find_objects (trusted external model).",
    technique="normal-form comparison + path-event sets + who-may-write table + option forwarding (AST)",
    design="4 C04"),
+ 'C12': dict(
+   text="Bookkeeping clauses decided structurally, recovery not claimed: T-ORDER (each per-group list is un-grouped exactly once before it "
+        "meets the id-ordered table; the permutation is the argsort of the grouped ids and only the gather in _order_by_id applies it), "
+        "USERCOL (no caller-supplied init_params column is overwritten), D1 (fit mask = input mask | non-finite), SPEC (ids, fit window, "
+        "local-background subtraction, grouper renumbering), FWD (Iterative driver / local background forward every option), "
+        "LP1/LP1b/T-AXIS/A1 on the psf photometry modules.",
+   note="Not decided (no sound static bound in reach): exact recovery of x/y/flux, flux scaling, flag semantics vs geometry, iterative == "
+        "single pass numerically.",
+   technique="order-type (group vs id) tag system + guard analysis + normal forms + option forwarding (AST)",
+   design="4 C12"),
+ 'C14': dict(
+   text="Selection predicates decided structurally: find_peaks statements in normal form (equality with the neighbourhood maximum, mask "
+        "conjoined after the filter and never written into the data, strict threshold, zero-width-safe borders, top-N by descending sort, NaN "
+        "fill with the minimum on a copy), exactly the inclusive bounds of each finder's contract on the matching measurement (FILTER), "
+        "agreement of the three finder catalogs on select_brightest/apply_all_filters/reset_ids (SIB), filters -> brightest -> reset_ids "
+        "(D2), border order (T-AXIS), options forwarded (FWD), inputs never written (A1).",
+   note="Not decided: the numeric sharpness/roundness/flux measurements.",
+   technique="normal forms + sibling agreement + comparison-set extraction + axis tags (AST)",
+   design="4 C14"),
 }
 
 fix_commits = subprocess.run(['git', '-C', '/repo', 'log', '--format=%h %s', '8203d59..HEAD'],
